@@ -333,3 +333,117 @@ M("c11-invalidrange-status-400", ["C11"], {"C11": ["R11.4"]}, "error.go",
 """, """	case ErrInvalidRange:
 		return http.StatusBadRequest
 """)
+
+# ---------------------------------------------------------------- C09
+REVERT("f1-revert-copy-source-guard", ["C09"], {"C09": ["R09.1b"]}, "0001-fix-reject-a-copy-source-without-a-key-instead-of-pa.patch", expect="copyObject")
+REVERT("f4-revert-nonpositive-part-number", ["C09"], {"C09": ["R09.1b"]}, "0003-fix-reject-non-positive-part-numbers-in-a-complete-r.patch", expect="CompleteMultipartUpload")
+REVERT("f2-revert-listparts-marker", ["C09"], {"C09": ["R09.1b"]}, "0004-fix-list-parts-by-their-real-part-numbers-and-tolera.patch", expect="ListParts")
+REVERT("f5-revert-range-overflow-fix-c09", ["C09"], {"C09": ["R11.1"]}, "0005-fix-clip-ranges-without-overflowing-for-ends-near-th.patch")
+REVERT("f6-revert-version-seek-nil-iter", ["C09"], {"C09": ["R09.1n"]}, "0006-fix-seeking-a-version-in-an-object-without-archived-.patch", expect="Seek")
+REVERT("f9-revert-current-version-nil", ["C09"], {"C09": ["R09.1n"]}, "0011-fix-deleting-the-current-version-leaves-the-key-with.patch", expect="bucketObject.data")
+REVERT("f11-revert-declared-length-alloc", ["C09"], {"C09": ["R09.1a"]}, "0012-fix-a-negative-or-absurd-declared-length-cannot-pani.patch", expect="ReadAll")
+
+M("c09-versioned-nil-guard-removed", ["C09"], {"C09": ["R09.1n"]}, "gofakes3.go",
+  """func (g *GoFakeS3) deleteObjectVersion(bucket, object string, version VersionID, w http.ResponseWriter, r *http.Request) error {
+	if g.versioned == nil {
+		return ErrNotImplemented
+	}
+""", """func (g *GoFakeS3) deleteObjectVersion(bucket, object string, version VersionID, w http.ResponseWriter, r *http.Request) error {
+""", expect="deleteObjectVersion")
+
+M("c09-route-default-arm-removed", ["C09"], {"C09": ["R09.2"]}, "routing.go",
+  """	case "GET":
+		return g.listBucketVersions(bucket, w, r)
+	default:
+		return ErrMethodNotAllowed
+	}
+}""", """	case "GET":
+		return g.listBucketVersions(bucket, w, r)
+	}
+	return nil
+}""")
+
+M("c09-routebase-object-without-len-check", ["C09"], {"C09": ["R09.1b"]}, "routing.go",
+  """	if len(parts) == 2 {
+		object = parts[1]
+	}
+""", """	if r.Method != "OPTIONS" {
+		object = parts[1]
+	}
+""", expect="routeBase")
+
+M("c09-middleware-silent-return", ["C09"], {"C09": ["R09.6"]}, "gofakes3.go",
+  """		if timeHdr != "" {
+			rqTime, _ := time.Parse("20060102T150405Z", timeHdr)""", """		if timeHdr == "0" {
+			return
+		}
+		if timeHdr != "" {
+			rqTime, _ := time.Parse("20060102T150405Z", timeHdr)""")
+
+M("c09-middleware-next-twice", ["C09"], {"C09": ["R09.6"]}, "gofakes3.go",
+  """		bucket, ok := matchBucket(rq.Host)
+		if !ok {
+			handler.ServeHTTP(w, rq)
+			return
+		}""", """		bucket, ok := matchBucket(rq.Host)
+		if !ok {
+			handler.ServeHTTP(w, rq)
+		}""")
+
+M("c09-sleep-in-handler", ["C09"], {"C09": ["R09.7"]}, "gofakes3.go",
+  """	g.log.Print(LogInfo, "HEAD BUCKET", bucket)
+""", """	g.log.Print(LogInfo, "HEAD BUCKET", bucket)
+	if r.Header.Get("x-amz-wait") != "" {
+		done := make(chan struct{})
+		<-done
+	}
+""")
+
+M("c09-wrong-type-assert-in-listbucket", ["C09"], {"C09": ["R09.1t"]}, "backend/s3mem/backend.go",
+  """		object := iter.Value().(*bucketObject)
+
+		if !prefix.Match(object.name, &match) {""", """		if _, isData := iter.Value().(*bucketData); isData {
+			continue
+		}
+		object := iter.Value().(*bucketObject)
+		_ = iter.Key().(gofakes3.VersionID)
+
+		if !prefix.Match(object.name, &match) {""")
+
+M("c09-new-panic-in-handler", ["C09"], {"C09": ["R09.1p"]}, "gofakes3.go",
+  """	etag := `"` + hex.EncodeToString(obj.Hash) + `"`
+	w.Header().Set("ETag", etag)
+""", """	if len(obj.Hash) != 16 {
+		panic("unexpected hash length")
+	}
+	etag := `"` + hex.EncodeToString(obj.Hash) + `"`
+	w.Header().Set("ETag", etag)
+""")
+
+M("c09-call-under-explicit-unlock", ["C09"], {"C09": ["R09.4"]}, "backend/s3mem/versionid.go",
+  """	v.next.Add(v.next, add1)
+	idb := []byte(fmt.Sprintf("%030d", v.next))
+""", """	v.next.Add(v.next, add1)
+	idb := []byte(fmt.Sprintf("%030d", v.next))
+	if v.next.BitLen() > 90 {
+		panic("version counter overflow")
+	}
+""")
+
+M("c09-marker-indexes-keys", ["C09"], {"C09": ["R09.1b"]}, "gofakes3.go",
+  """	srcKey, err = url.QueryUnescape(srcKey)
+	if err != nil {
+		return err
+	}""", """	srcKey, err = url.QueryUnescape(srcKey)
+	if err != nil {
+		return err
+	}
+	if srcKey[0] == '/' {
+		srcKey = srcKey[1:]
+	}""", expect="copyObject")
+
+M("c09-alloc-from-request-number", ["C09"], {"C09": ["R09.1a"]}, "gofakes3.go",
+  """	out, err := g.uploader.ListParts(bucket, object, uploadID, int(marker), maxParts)""",
+  """	seen := make([]bool, marker+1)
+	_ = seen
+	out, err := g.uploader.ListParts(bucket, object, uploadID, int(marker), maxParts)""")
